@@ -950,6 +950,20 @@ class Executor:
         self.with_common(s, frame, True)
 
     def with_common(self, s, frame, is_async):
+        # contextlib.suppress(E1, ...): the body's exception of one of these classes ends the block silently
+        if len(s.items) == 1 and isinstance(s.items[0].context_expr, ast.Call) and \
+                isinstance(s.items[0].context_expr.func, ast.Name) and s.items[0].context_expr.func.id == 'suppress' and \
+                s.items[0].optional_vars is None:
+            import contextlib
+            if self.resolve_global(s.items[0].context_expr.func, frame) is not contextlib.suppress:
+                raise Unsupported('with suppress(...): not contextlib.suppress')
+            classes = tuple(self.resolve_global(a, frame) for a in s.items[0].context_expr.args)
+            try:
+                self.exec_block(s.body, frame)
+            except PyRaise as e:
+                if not (classes and issubclass(e.cls, classes)):
+                    raise
+            return
         exits = []
         for item in s.items:
             key = ast.unparse(item.context_expr)
